@@ -2,13 +2,8 @@
    `{"op": "...", "args": {...}}` → one JSON reply per line on stdout.
    Imports the executable model only (no Mathlib), so it links as a `lean_exe`. -/
 import Driver.Proto
-import Driver.OpsDates
-import Driver.OpsBind
-import Driver.OpsBackends
+import Driver.All
 open Lean
-
-def dispatchers : List (String → Json → Option (Except String Json)) :=
-  [OpsDates.run, OpsBind.run, OpsBackends.run]
 
 def handle (line : String) : Json :=
   match Json.parse line with
